@@ -227,8 +227,6 @@ def run(ctx):
         ctx.ob("E6.origin", fk, ok, "%s receives a generator created by get_crypto_rng() in this very call" % callee, where=where(f))
         blanks = [s for s in ev.sites.values() if s.callee[0] == "helpers::get_crypto_rng"]
         ctx.ob("E6.origin", fk + "/per-call", len(blanks) == 1, "one get_crypto_rng() call per invocation (found %d)" % len(blanks), where=where(f))
-    # seeded derivations use the caller's generator (and only it)
-    K.check_seeded_derivation(ctx, P)
     f = ctx.need_fn("E6.origin", "SecretKey<C>::split_with_rng")
     if f is not None:
         check_origin(ctx, P, "SecretKey<C>::split_with_rng", "sharing polynomial", lambda ev: next((s.value for s in ev.sites.values() if s.callee[0] == "vsss_rs::split_secret"), None))
